@@ -43,6 +43,11 @@ def cpp_specs(ctx, files_quick=7, per_file=80, rand_files_quick=2, rand_per_file
     for i in range(nwrap):
         seqs = [[rng.choice(S.PALETTE_TAGS) for _ in range(rng.randint(1, 3))] for _ in range(14)]
         specs.append({tag: True, 'kind': 'seq', 'seqs': seqs, 'wrap': True, 'seed': ctx.seed * 1000 + 300 + i})
+    # canary: member sequences that reach the recorded known findings of the C++ back-ends, so that a
+    # KNOWN-FINDING line is printed on every run while the defect persists (and none once it is repaired)
+    specs.append({tag: True, 'kind': 'seq', 'wrap': True, 'seed': ctx.seed * 1000 + 999, 'canary': True,
+                  'seqs': [['FxO<2>'], ['bytes<5>', 'Fx2*'], ['Dy1', 'u8<>', 'Fx1'], ['u8<>', 'Fx2[2]', 'bytes<...>'],
+                           ['u64<>', 'u8<>', 'u8']]})
     nrf = ctx.pick(rand_files_quick, rand_files_thorough)
     for i in range(nrf):
         seeds = [ctx.seed * 100000 + 7000 + i * rand_per_file + k for k in range(rand_per_file)]
